@@ -81,7 +81,9 @@ def run_harnesses(pid, hs, repo, scratch, say, extra_args=(), timeout=900):
         short = name.split('::')[-1]
         ok = 'VERIFICATION:- SUCCESSFUL' in b
         failed = 'VERIFICATION:- FAILED' in b
-        per[short] = ('ok' if ok and not failed else 'failed' if failed else 'error', b)
+        # a solver that ran out of memory / crashed / timed out has decided nothing
+        crashed = 'out of memory' in b or 'CBMC failed' in b or 'CBMC timed out' in b or ('Failed Checks:' not in b and 'Status: FAILURE' not in b)
+        per[short] = ('ok' if ok and not failed else 'error' if failed and crashed else 'failed' if failed else 'error', b)
     for h in hs:
         st, detail = per.get(h['name'], ('error', out[-1500:]))
         tm = re.search(r'Verification Time: ([0-9.]+)s', detail)
